@@ -244,7 +244,7 @@ def rule_arith(ctx, db):
             ctx.ob("R5", "justified:%s:%s#%d" % (root, what, per[k]), j is not None,
                    "%s at line %s: %s" % (what, ln, j or "nothing establishes that the subtrahend / index bound cannot exceed the "
                                           "minuend / slice length"), f)
-    ctx.floor("R5", "checked subtractions / open-ended indexes in compio-buf and the pool buffer", n, 13)
+    ctx.floor("R5", "checked subtractions / open-ended indexes in compio-buf and the pool buffer", n, 11)
 
 
 def rule_vectored_and_narrowing(ctx, db):
@@ -266,7 +266,7 @@ def rule_vectored_and_narrowing(ctx, db):
     # grow-only policy lives in advance_to
     sib = [f for f in db.fns.values() if f.short == "set_len" and f.impl and (f.impl.get("trait") or "").endswith("::SetLen") and
            re.match(r"^(alloc::vec::Vec<u8>|bytes::bytes_mut::BytesMut|arrayvec::arrayvec::ArrayVec<u8, N>|smallvec::SmallVec<\[u8; N\]>)$", f.impl.get("self") or "")]
-    ctx.floor("R6", "SetLen impls of growable root byte containers", len(sib), 2)
+    ctx.floor("R6", "SetLen impls of growable root byte containers", len(sib), 1)
     for f in sib:
         gated = any(st.get("r", {}).get("k") == "bin" and st["r"].get("x") in ("Lt", "Le", "Gt", "Ge") for bi, si, st in f.stmts()) and \
             bool(calls(f, r"buf_len$|::len$"))
